@@ -85,6 +85,8 @@ def fixed_plans(tier: str) -> list[dict]:
     plans = []
     for fn, (reg, _) in SAVE_FNS.items():
         formats = (DATA_FORMATS if reg == "data" else PROJECT_FORMATS) + ["nope", "infer"]
+        if fn == "save_result":
+            formats.append("infer_folder")  # a folder path without extension and without format_name
         for fmt in formats:
             plans.append({"engine": NAME, "kind": "matrix", "fn": fn, "format": fmt})
     return plans
@@ -430,7 +432,9 @@ class Run:
                     n += 1
                     cell = f"{fn_name}|{fmt}|{state}|{flag}|{fkind}"
                     cell_dir = os.path.join(self.sandbox, f"c{n}")
-                    if fmt == "infer":
+                    if fmt == "infer_folder":
+                        ext, explicit = "", None
+                    elif fmt == "infer":
                         ext = {"save_dataset": "nc", "save_model": "yml", "save_parameters": "csv", "save_scheme": "yml",
                                "save_result": "yml"}[fn_name]
                         explicit = None
